@@ -595,41 +595,61 @@ def run(repo, run, tier):
     # multi-line documentation text: every physical line carries the comment leader
     um = repo.module("util")
     wd = um.func("WrapperMixin.write_doxygen")
-    blocks = [n for n in ast.walk(wd) if isinstance(n, ast.If) and isinstance(n.test, ast.Compare)
-              and pyflow.const_str(n.test.left) == "description"]
-    if len(blocks) != 1:
-        raise AnalysisError("C16.R1: description block of write_doxygen not found")
-    blk = blocks[0]
-    whole = set()
-    for a in ast.walk(blk):
-        if isinstance(a, ast.Assign) and isinstance(a.targets[0], ast.Name):
-            src = um.seg(a.value)
-            if ("docs['description']" in src or any(w in [x.id for x in ast.walk(a.value) if isinstance(x, ast.Name)] for w in whole)) \
-                    and ".split(" not in src:
-                whole.add(a.targets[0].id)
-    # a list display holding the unsplit text (`lines = [desc]`) has the whole text as its element: the loop variable
-    # of an iteration over it is the whole text again (on the path where the text has no trailing newline)
-    holders = set()
-    for a in ast.walk(blk):
-        if isinstance(a, ast.Assign) and isinstance(a.targets[0], ast.Name) and isinstance(a.value, (ast.List, ast.Tuple)) \
-                and any(isinstance(e, ast.Name) and e.id in whole or "docs['description']" == str(um.seg(e)) for e in a.value.elts):
-            holders.add(a.targets[0].id)
-    for l in ast.walk(blk):
-        if isinstance(l, ast.For) and isinstance(l.iter, ast.Name) and l.iter.id in holders and isinstance(l.target, ast.Name):
-            whole.add(l.target.id)
-    whole -= holders
-    bad = []
-    for c in ast.walk(blk):
-        if isinstance(c, ast.Call) and isinstance(c.func, ast.Attribute) and c.func.attr in ("append", "extend") and c.args:
-            arg = c.args[0]
-            names = set(x.id for x in ast.walk(arg) if isinstance(x, ast.Name))
-            in_lines_loop = any(isinstance(p_, ast.For) for p_ in parent_chain(c) if p_ is not blk)
-            if ("docs['description']" in um.seg(arg) or names & whole) and not (
-                    isinstance(arg, ast.BinOp) and in_lines_loop and not (names & whole)):
-                bad.append(um.seg(c))
-    run.check(R1, "util.WrapperMixin.write_doxygen:description-lines", not bad,
-              "the description (a multi-line block) is emitted as one string (%s): only its first line gets the comment "
-              "leader, the following lines become statements of the generated file" % bad[:1], um.loc(blk))
+    keys = sorted(set(pyflow.const_str(x.slice) for x in ast.walk(wd) if isinstance(x, ast.Subscript)
+                      and pyflow.is_name(x.value, "docs") and pyflow.const_str(x.slice)))
+    if "description" not in keys or len(keys) < 3:
+        raise AnalysisError("C16.R1: documentation keys of write_doxygen not found (%s)" % keys)
+
+    def whole_text_appends(fn, is_source, depth=0):
+        """appends in fn whose argument contains the unsplit text (`is_source(expr)` says which expressions are the text)"""
+        whole = set()
+        changed = True
+        while changed:
+            changed = False
+            for a in ast.walk(fn):
+                if isinstance(a, ast.Assign) and isinstance(a.targets[0], ast.Name) and a.targets[0].id not in whole:
+                    src = str(um.seg(a.value))
+                    mentions = any(is_source(x) for x in ast.walk(a.value)) or \
+                        any(isinstance(x, ast.Name) and x.id in whole for x in ast.walk(a.value))
+                    if mentions and ".split(" not in src and ".splitlines(" not in src and not isinstance(a.value, (ast.List, ast.Tuple)):
+                        whole.add(a.targets[0].id)
+                        changed = True
+        # a list display holding the unsplit text (`lines = [desc]`) has the whole text as its element: the loop
+        # variable of an iteration over it is the whole text again
+        holders = set()
+        for a in ast.walk(fn):
+            if isinstance(a, ast.Assign) and isinstance(a.targets[0], ast.Name) and isinstance(a.value, (ast.List, ast.Tuple)) \
+                    and any((isinstance(e, ast.Name) and e.id in whole) or is_source(e) for e in a.value.elts):
+                holders.add(a.targets[0].id)
+        for l in ast.walk(fn):
+            if isinstance(l, ast.For) and isinstance(l.iter, ast.Name) and l.iter.id in holders and isinstance(l.target, ast.Name):
+                whole.add(l.target.id)
+        bad = []
+        for c in ast.walk(fn):
+            if not isinstance(c, ast.Call):
+                continue
+            if isinstance(c.func, ast.Attribute) and c.func.attr in ("append", "extend") and c.args:
+                arg = c.args[0]
+                if any(is_source(x) or (isinstance(x, ast.Name) and x.id in whole) for x in ast.walk(arg)):
+                    bad.append(str(um.seg(c)))
+            elif isinstance(c.func, ast.Attribute) and pyflow.is_name(c.func.value, "self") and depth < 2 and \
+                    um.has_func("WrapperMixin.%s" % c.func.attr):
+                callee = um.func("WrapperMixin.%s" % c.func.attr)
+                ps = [a.arg for a in callee.args.args][1:]
+                for k, a in enumerate(c.args):
+                    if k < len(ps) and (is_source(a) or (isinstance(a, ast.Name) and a.id in whole)):
+                        pname = ps[k]
+                        bad += whole_text_appends(callee, lambda x, pname=pname: isinstance(x, ast.Name) and x.id == pname
+                                                  and isinstance(x.ctx, ast.Load), depth + 1)
+        return bad
+    for k in keys:
+        def is_doc(x, k=k):
+            return isinstance(x, ast.Subscript) and pyflow.is_name(x.value, "docs") and pyflow.const_str(x.slice) == k \
+                and isinstance(x.ctx, ast.Load)
+        bad = whole_text_appends(wd, is_doc)
+        run.check(R1, "util.WrapperMixin.write_doxygen:%s-lines" % k, not bad,
+                  "the %s text (a YAML block scalar can hold several lines) is emitted as one string (%s): only its first line "
+                  "gets the comment leader, the following lines become statements of the generated file" % (k, bad[:1]), um.loc(wd))
     # an output list that so far holds only documentation: its length / emptiness is an option read in disguise
     nl = 0
     for modname in MODULES:
